@@ -303,6 +303,27 @@ let () =
                 report (Printf.sprintf "C12:implementation-sent-%s(since-1.%d)-to-a-connection-that-negotiated-1.%d" k (out_kind_min k) v)
                   line (Printf.sprintf "%d:%s" c t) "-"
             | _ -> ()) !obs_outs;
+          (* C10 order, on the implementation alone (outputs are otherwise compared as multisets): per
+             connection, in the order the connection received this step's messages, a service's bus
+             events lie inside its object's lifetime - no ServiceDestroyed after the ObjectDestroyed of
+             its object, no ServiceCreated before its ObjectCreated (the model's order: C10_order) *)
+          if not !dead then begin
+            let seen = Hashtbl.create 7 in
+            List.iter (fun (c, t) ->
+              match String.split_on_char ' ' t with
+              | "EmitBusEvent" :: _ :: k :: u :: ck :: _ ->
+                  (match k with
+                   | "OD" -> Hashtbl.replace seen (c, "OD", u, ck) ()
+                   | "SC" -> Hashtbl.replace seen (c, "SC", u, ck) ()
+                   | "SD" when Hashtbl.mem seen (c, "OD", u, ck) ->
+                       report "C10:implementation-sent-ServiceDestroyed-after-the-ObjectDestroyed-of-its-object-to-one-connection"
+                         line (String.concat "; " (List.rev_map (fun (c, t) -> Printf.sprintf "%d:%s" c t) !obs_outs)) "-"
+                   | "OC" when Hashtbl.mem seen (c, "SC", u, ck) ->
+                       report "C10:implementation-sent-ServiceCreated-before-the-ObjectCreated-of-its-object-to-one-connection"
+                         line (String.concat "; " (List.rev_map (fun (c, t) -> Printf.sprintf "%d:%s" c t) !obs_outs)) "-"
+                   | _ -> ())
+              | _ -> ()) (List.rev !obs_outs)
+          end;
           (* C12 gate-in, on the implementation alone: a message newer than the sender's version closes the sender *)
           (match p.ev with
            | Message (c, x) when not !dead && not (Hashtbl.mem dropped (int_of_n c)) ->
